@@ -3,6 +3,8 @@ import Tau.Proofs.Pratt
 import Tau.Proofs.Safe
 import Tau.Proofs.MappingSafe
 import Tau.Proofs.SafeOpt
+import Tau.Proofs.Shake1Safe
+import Tau.Proofs.MatrixSafe
 /-
   C03 — An accepted rule can always be evaluated (no panic after load).
 -/
@@ -279,5 +281,95 @@ theorem coalesce_shake0_never_panics (E : RegexEngine) (ic : Bool) (entries : Li
     hitsTop E [] (.user g) (rewrite E (shake0 fuel (coalesce d.ids d.expr))) = false :=
   closed_safe_never_panics E _
     (rewrite_safe E nod _ (shake0_safe nod fuel _ (loaded_coalesced_safe E ic entries d h hdef))) g
+
+end Tau.C03
+
+namespace Tau.C03
+open Tau
+
+/-- A rule state the solver cannot panic on: safe closed bodies, condition safe w.r.t. them. -/
+def Good (p : Expr × Ids) : Prop :=
+  (∀ i b, lookupId p.2 i = some b → safe nod b = true) ∧
+  safe (fun i => (lookupId p.2 i).isSome) p.1 = true
+
+theorem lookup_map' (ids : Ids) (g : Expr → Expr) (i : Str) :
+    lookupId (ids.map (fun (k, v) => (k, g v))) i = (lookupId ids i).map g := by
+  induction ids with
+  | nil => rfl
+  | cons x xs ih =>
+    obtain ⟨k, v⟩ := x
+    simp only [List.map_cons, lookupId]
+    split
+    · rfl
+    · exact ih
+
+/-- A pass that keeps `safe` (for every set of defined identifiers), applied to the condition and
+    to every identifier body, keeps the rule state good. -/
+theorem good_pass (g : Expr → Expr) (hg : ∀ defd e, safe defd e = true → safe defd (g e) = true)
+    (e : Expr) (ids : Ids) (h : Good (e, ids)) : Good (g e, ids.map (fun (k, v) => (k, g v))) := by
+  constructor
+  · intro i b hl
+    simp only at hl
+    rw [lookup_map'] at hl
+    cases hl' : lookupId ids i with
+    | none => rw [hl'] at hl; cases hl
+    | some b0 =>
+      rw [hl'] at hl
+      simp only [Option.map_some, Option.some.injEq] at hl
+      subst hl
+      exact hg nod b0 (h.1 i b0 hl')
+  · simp only
+    have : (fun i => (lookupId (ids.map (fun (k, v) => (k, g v))) i).isSome) = (fun i => (lookupId ids i).isSome) := by
+      funext i; rw [lookup_map']; cases lookupId ids i <;> rfl
+    rw [this]
+    exact hg _ e h.2
+
+theorem good_never_panics (E : RegexEngine) (p : Expr × Ids) (h : Good p) (g : Str → Option Value) :
+    hitsTop E p.2 (.user g) p.1 = false :=
+  top_no_hits E p.2 (.user g) (noFP_user g) p.1 h.1 h.2
+
+/-- **Optimised rules never panic either — for every one of the 16 switch combinations.**
+    coalesce, shake (both halves), rewrite and matrix keep the rule inside `safe` (the matrix node
+    is well-formed: fewer than 0xD800 columns — the repaired guard —, rows as wide as the columns,
+    every cell keyed by its column's synthetic key); so after a successful load, `matches` on the
+    optimised rule reaches no `unreachable!()`, no undefined identifier and no out-of-range cache
+    access, on any document. -/
+theorem optimised_never_panics (E : RegexEngine) (ic : Bool) (entries : List (Str × Yaml))
+    (d : Detection) (h : loadDetection E ic entries = .ok d)
+    (hdef : ∀ i ∈ condIdents d.expr, (lookupId d.ids i).isSome = true)
+    (sw : Switches) (g : Str → Option Value) :
+    let o := optimiseTree E sw d.ids d.expr
+    hitsTop E o.2 (.user g) o.1 = false := by
+  have hbodies := loaded_bodies_safe E ic entries d h
+  have hcond := loaded_condition_safe E ic entries d h hdef
+  have g0 : Good (d.expr, d.ids) := ⟨hbodies, hcond⟩
+  have gc : Good (coalesce d.ids d.expr, ([] : Ids)) := by
+    refine ⟨fun i b hl => by simp [lookupId] at hl, ?_⟩
+    simp only
+    rw [nod_eq]
+    exact loaded_coalesced_safe E ic entries d h hdef
+  have hshake : ∀ defd e, safe defd e = true → safe defd (shake e) = true := shake_safe
+  have hrw : ∀ defd e, safe defd e = true → safe defd (rewrite E e) = true := fun defd e => rewrite_safe E defd e
+  have hmx : ∀ defd e, safe defd e = true → safe defd (matrixPass e) = true :=
+    fun defd e he => matrix_safe defd _ e he
+  obtain ⟨c, s, r, m⟩ := sw
+  cases c <;> cases s <;> cases r <;> cases m <;>
+    simp only [optimiseTree, if_true, Bool.false_eq_true, if_false]
+  · exact good_never_panics E _ g0 g
+  · exact good_never_panics E _ (good_pass _ hmx _ _ g0) g
+  · exact good_never_panics E _ (good_pass _ hrw _ _ g0) g
+  · exact good_never_panics E _ (good_pass _ hmx _ _ (good_pass _ hrw _ _ g0)) g
+  · exact good_never_panics E _ (good_pass _ hshake _ _ g0) g
+  · exact good_never_panics E _ (good_pass _ hmx _ _ (good_pass _ hshake _ _ g0)) g
+  · exact good_never_panics E _ (good_pass _ hrw _ _ (good_pass _ hshake _ _ g0)) g
+  · exact good_never_panics E _ (good_pass _ hmx _ _ (good_pass _ hrw _ _ (good_pass _ hshake _ _ g0))) g
+  · exact good_never_panics E _ gc g
+  · exact good_never_panics E _ (good_pass _ hmx _ _ gc) g
+  · exact good_never_panics E _ (good_pass _ hrw _ _ gc) g
+  · exact good_never_panics E _ (good_pass _ hmx _ _ (good_pass _ hrw _ _ gc)) g
+  · exact good_never_panics E _ (good_pass _ hshake _ _ gc) g
+  · exact good_never_panics E _ (good_pass _ hmx _ _ (good_pass _ hshake _ _ gc)) g
+  · exact good_never_panics E _ (good_pass _ hrw _ _ (good_pass _ hshake _ _ gc)) g
+  · exact good_never_panics E _ (good_pass _ hmx _ _ (good_pass _ hrw _ _ (good_pass _ hshake _ _ gc))) g
 
 end Tau.C03
